@@ -15,7 +15,8 @@ RULE_TEXT = ("C10-T: obligations over the HIR and the path summaries of the sing
              "is used only by run/is_empty/write/clear and write's argument is that buffer."
              " C10-C04X: execute writes a terminator only after a successful query and nothing otherwise (rule C04-X)."
              " C10-K: the buffer discipline of process (rules K1-K7 of C07). C10-C01X: the handler slot follows the query flag (rule C01-X) - a header in the wrong form executes nothing and writes nothing."
-             " C10-B: on every witness interface each command-form spelling that reaches a library function reaches one whose Ok type is `()` - the dispatcher writes whatever the handler returns.")
+             " C10-B: on every witness interface each command-form spelling that reaches a library function reaches one whose Ok type is `()` - the dispatcher writes whatever the handler returns."
+             " T4 also: the response buffer is never cleared while it holds (or may hold) a response that has not been written.")
 
 PROCESS = "microscpi::interface::Interface::process"
 ADAPTER = "microscpi::interface::Adapter::"
@@ -263,6 +264,9 @@ def response_typestate(ck, exits, res_id, rid):
             elif name == ADAPTER + "flush":
                 pending_flush = False
             elif name.endswith("::clear") and args and is_res(args[0]):
+                if state in ("nonempty", "dirty"):
+                    problems.append("the response buffer is cleared while it %s a response that has not been written (the answer to a query is dropped)"
+                                    % ("holds" if state == "nonempty" else "may hold"))
                 state = "empty"
             elif name == ADAPTER + "read":
                 if state != "empty" or pending_flush:
